@@ -1003,3 +1003,243 @@ Theorem packed_fragment_entries_fit :
   forallb ImageProofs.frag_okb (GlueModel.frag_table_of st) = true.
 Proof. exact BodyOk.frag_table_okb. Qed.
 Print Assumptions packed_fragment_entries_fit.
+
+(* ---- 8. the xattr reader of the end-to-end theorem is the model of the REAL reader (coq/ImgXattrReader) ---- *)
+(* Section 7's read_all still used ImgXattr.XattrRead.read_xattr_set — a reader SPECIFICATION written from doc/format.adoc
+   — for extended attributes.  Here the C05 model of lib/sqfs/src/xattr/xattr_reader.c (coq/C05/Xattr.v, the model C05's
+   check ties to the C code: sqfs_xattr_reader_load with header, id block location list, bounds checks and the two meta
+   readers on [id_table_start, bytes_used); get_desc with (idx * 16) / 8192 and % 8192; seek_kv; read with the prefix
+   table, the value header and the OUT-OF-LINE case: reference decoded, bounds test, position saved, seek, value read,
+   position restored; read_all) is run on the BYTES write_image produces with a section from xflush.
+     xattr_reader_model_refines_spec   load succeeds, and for ANY sequence ks of indices (each NOIDX or < number of sets,
+       any order, repetitions) read_all on the one loaded reader object returns for every k exactly what the specification
+       returns — whatever block and cursor the two meta readers were left with by the calls before; no Crash, no
+       OutOfFuel, no error.  Covers multiple id blocks, key-value streams spanning metadata blocks, compressed blocks
+       (compressor contract) and shared values stored once and referenced.
+     xattr_reader_model_roundtrip      hence the model returns a permutation of set_spec of the recorded set.
+     pack_all_reads_back_real          section 7's theorem with read_all_real: tree, fragment table, contents AND xattrs by
+       real-reader models only (one xattr reader object threaded through all paths); read_all_real = read_all on the run.
+   Hypotheses beyond section 7: [xalloc_okb] — every pair fits the allocation limit of the C05 model (32 + key + value + 2
+   <= 2 GiB; sqfs_xattr_reader_read allocates the pair) — and the loop bounds: pairs of the largest set <= efuel, bytes of
+   the xattr section <= fuel (two rounds of sqfs_meta_reader_read per metadata block, each block >= 3 bytes).
+   The intermediate notion KSpec.k_pair is g_pair with the C05 field decoding (a k byte field is read modulo 256^k): no
+   theorem here assumes that list elements standing for bytes are < 256.  Not modelled in C05 (C10 has them): read_key /
+   read_value as separate calls (rdsquashfs -u), sqfs_copy of the reader. *)
+From SqfsV Require C05.Xattr C05.Meta.
+From SqfsV Require ImgXattr.XattrRead.
+From SqfsV Require ImgXattrReader.KSpec ImgXattrReader.Refine ImgXattrReader.SectionRefine ImgXattrReader.Session
+  ImgXattrReader.ImageRefine ImgXattrReader.RealAll ImgXattrReader.E2EReal ImgXattrReader.Example.
+
+Theorem xattr_reader_model_refines_spec : forall compress uncompress, meta_contract compress uncompress ->
+  forall uc, Embed.uc_meets uncompress uc ->
+  forall limit, limit <= 65535 ->
+  forall cfg inp w,
+  FinishModel.write_image compress limit cfg inp = Ok w ->
+  ImageProofs.image_domain cfg inp = true -> ImageProofs.image_fits w = true ->
+  Common.lenN (FinishModel.image_bytes w) < RBase.two63 ->
+  forall xw, FlushModel.xflush compress (FinishProofs.o_xattr w) xw = Ok (FinishModel.in_xattr inp) ->
+  forall sets idxs, Forall set_ok sets -> xw_sets xw_empty sets = Ok (xw, idxs) ->
+  nlen (x_blocks xw) < NOIDX -> Common.lenN (FinishModel.w_xattrb w) < 281474976710656 ->
+  FinishModel.c_no_xattr cfg = false -> SectionRefine.xalloc_okb xw = true ->
+  forall efuel fuel,
+  (SectionRefine.xw_efuel xw <= efuel)%nat -> (length (FinishModel.w_xattrb w) <= fuel)%nat ->
+  forall ks, Forall (fun k => k = NOIDX \/ k < nlen (x_blocks xw)) ks ->
+  exists ls,
+    Session.xattr_session uc (FinishModel.image_bytes w) efuel fuel (ReadImage.sup_of (FinishModel.w_super w)) ks = RBase.Ok ls /\
+    Forall2 (fun k l => XattrRead.read_xattr_set uncompress (FinishModel.image_bytes w) (FinishModel.w_super w) k = Ok l) ks ls.
+Proof. exact ImageRefine.session_refines_spec. Qed.
+Print Assumptions xattr_reader_model_refines_spec.
+
+Theorem xattr_reader_model_roundtrip : forall compress uncompress, meta_contract compress uncompress ->
+  forall uc, Embed.uc_meets uncompress uc ->
+  forall limit, limit <= 65535 ->
+  forall cfg inp w,
+  FinishModel.write_image compress limit cfg inp = Ok w ->
+  ImageProofs.image_domain cfg inp = true -> ImageProofs.image_fits w = true ->
+  Common.lenN (FinishModel.image_bytes w) < RBase.two63 ->
+  forall xw, FlushModel.xflush compress (FinishProofs.o_xattr w) xw = Ok (FinishModel.in_xattr inp) ->
+  forall sets idxs, Forall set_ok sets -> xw_sets xw_empty sets = Ok (xw, idxs) ->
+  nlen (x_blocks xw) < NOIDX -> Common.lenN (FinishModel.w_xattrb w) < 281474976710656 ->
+  FinishModel.c_no_xattr cfg = false -> SectionRefine.xalloc_okb xw = true ->
+  forall efuel fuel,
+  (SectionRefine.xw_efuel xw <= efuel)%nat -> (length (FinishModel.w_xattrb w) <= fuel)%nat ->
+  forall i kvs idx, nth_error sets i = Some kvs -> nth_error idxs i = Some idx ->
+  exists l,
+    Session.xattr_session uc (FinishModel.image_bytes w) efuel fuel (ReadImage.sup_of (FinishModel.w_super w)) [idx] = RBase.Ok [l] /\
+    Permutation l (set_spec kvs) /\
+    XattrRead.read_xattr_set uncompress (FinishModel.image_bytes w) (FinishModel.w_super w) idx = Ok l.
+Proof. exact ImageRefine.real_roundtrip. Qed.
+Print Assumptions xattr_reader_model_roundtrip.
+
+(* one sqfs_xattr_reader_read on ANY well-formed area (key-value blocks kvr followed by id blocks idr at [size0], inside the
+   window [ids, used) of an image < 2^63 bytes; not necessarily written by this packer): if the k-specification reads the
+   pair (k, v) at stream offset p and ends at p', then the model — whose key-value meta reader stands at p — returns (k, v)
+   and its meta reader stands at p'.  The out-of-line case goes through sqfs_meta_reader_get_position / _seek / _read /
+   _seek; [Rd] = "the cursor is inside a block of the area and the bytes behind it are ...". *)
+Theorem xattr_reader_read_one_pair : forall compress uncompress, meta_contract compress uncompress ->
+  forall uc, Embed.uc_meets uncompress uc ->
+  forall img, Common.lenN img < RBase.two63 ->
+  forall kvr idr size0 ids used,
+  let T := MetaRefine.mkT size0 (kvr ++ idr) ids used in
+  MetaRefine.table_ok compress img T -> idr <> [] ->
+  forall x kv p k v p' fuel,
+  Xattr.x_kvrd x = Some kv -> Xattr.x_start x = size0 -> Xattr.x_end x = used -> used < RBase.two64 ->
+  MetaRefine.Rd compress T kv (Common.dropN p (concat kvr) ++ concat idr) ->
+  KSpec.k_pair (KSpec.sseek compress kvr) (concat kvr) p = Ok (k, v, p') ->
+  KSpec.pair_alloc (k, v) <= RBase.alloc_limit ->
+  (2 * length (kvr ++ idr) <= fuel)%nat ->
+  exists kv', Xattr.xattr_read uc img fuel x = RBase.Ok (Xattr.with_kv x kv', (k, v)) /\
+              MetaRefine.Rd compress T kv' (Common.dropN p' (concat kvr) ++ concat idr).
+Proof. exact Refine.xattr_read_ok. Qed.
+Print Assumptions xattr_reader_read_one_pair.
+
+Theorem pack_all_reads_back_real :
+  forall (hashf : list N -> N)
+         (dcompress : list N -> option (list N)) (duncompress : list N -> nat -> option (list N)),
+  (forall b c, dcompress b = Some c ->
+     (length c < length b)%nat /\ forall n, (length b <= n)%nat -> duncompress c n = Some b) ->
+  forall compress uncompress, meta_contract compress uncompress ->
+  forall uc, Embed.uc_meets uncompress uc ->
+  forall limit, limit <= 65535 ->
+  forall half cfg pi r,
+  PackAll.pack_all hashf dcompress duncompress half compress limit cfg pi = PackAll.PDone r ->
+  Hyps.e2e_okb half cfg pi r = true -> SectionRefine.xalloc_okb (PackAll.r_xw r) = true ->
+  forall depth efuel fuel,
+  (Hyps.e2e_depth r <= depth)%nat -> (E2EReal.e2e_efuel_real r <= efuel)%nat -> (E2EReal.e2e_fuel_real r <= fuel)%nat ->
+  let img := FinishModel.image_bytes (PackAll.r_w r) in
+  let root := FstreeModel.fs_root (PackAll.r_fs r) in
+  let arr := PostModel.pp_inodes (PackAll.r_pp r) in
+  let fb := PackAll.fb_of (N.to_nat (FinishModel.c_block_size cfg)) (PackAll.r_st r) (PackAll.pi_contents pi)
+                          (PostModel.pp_files (PackAll.r_pp r)) in
+  let xa := PackAll.xa_of (PackAll.xattr_paths (PackAll.r_pp r)) (PackAll.r_idxs r) in
+  exists T fl out,
+    ReadImage.read_image_c05 uc depth efuel fuel img
+      = RBase.Ok (ReadImage.sup_of (FinishModel.w_super (PackAll.r_w r)), si_ids (FinishModel.w_img (PackAll.r_w r)), T) /\
+    denotes fb xa root fl /\
+    flat_lt [] (Embed.ltree_of T) = map (number arr) fl /\
+    (forall x, In x fl -> 1 <= ino_of arr (snd x) <= N.of_nat (length arr)) /\
+    (forall x y, In x fl -> In y fl -> ino_of arr (snd x) = ino_of arr (snd y) -> snd x = snd y) /\
+    RealAll.read_all_real uc duncompress img efuel fuel depth = RBase.Ok out /\
+    PackAll.read_all uc uncompress duncompress img depth efuel fuel = RBase.Ok out /\
+    Forall2 (Compose.entry_matches pi root arr) fl out /\
+    (forall e1 e2, In e1 out -> In e2 out -> PackAll.re_ino e1 = PackAll.re_ino e2 ->
+       PackAll.re_view e1 = PackAll.re_view e2 /\ PackAll.re_data e1 = PackAll.re_data e2 /\
+       Permutation (PackAll.re_xattrs e1) (PackAll.re_xattrs e2)).
+Proof. exact E2EReal.pack_all_reads_back_real_l. Qed.
+Print Assumptions pack_all_reads_back_real.
+
+(* non-vacuity (coq/ImgXattrReader/Example.v): the run of section 7's example with three different sets that share one
+   20 byte value — d/a: user.a, trusted.t = V; d/c: security.x = V; s: trusted.t = V, user.a twice; l: hard link to d/a.
+   Every hypothesis holds ... *)
+Example ex_real_hyps :
+  match ImgXattrReader.Example.exr_run with
+  | PackAll.PDone r =>
+      Hyps.e2e_okb ImgE2E.Example.ex_half ImgE2E.Example.ex_cfg ImgXattrReader.Example.exr_pi r = true /\
+      SectionRefine.xalloc_okb (PackAll.r_xw r) = true /\
+      N.of_nat (Hyps.e2e_depth r) = 5 /\ N.of_nat (E2EReal.e2e_efuel_real r) = 4 /\
+      N.of_nat (SectionRefine.xw_efuel (PackAll.r_xw r)) = 2 /\
+      N.of_nat (E2EReal.e2e_fuel_real r) = 146 /\ Common.lenN (FinishModel.w_xattrb (PackAll.r_w r)) = 146 /\
+      PackAll.r_idxs r = [NOIDX; NOIDX; 0; 1; 2; 3]
+  | _ => False
+  end.
+Proof. exact ImgXattrReader.Example.exr_hyps. Qed.
+
+(* ... the lookup table: (reference, pairs, bytes) per set — 39 = 10 + 29: V in line; 17: one pair whose value is the 8 byte
+   reference (in line: 29); 28 = 11 + 17: V by reference again ... *)
+Example ex_real_descs :
+  match ImgXattrReader.Example.exr_run with
+  | PackAll.PDone r =>
+      match XattrRead.read_xattr_table (img_uncompress 3) (FinishModel.image_bytes (PackAll.r_w r))
+                                       (FinishModel.w_super (PackAll.r_w r)) with
+      | Some t => map (fun k => XattrRead.xt_desc t k) [0; 1; 2; 3] = [Ok (0, 2, 39); Ok (39, 1, 17); Ok (56, 1, 10); Ok (66, 2, 28)]
+      | None => False
+      end
+  | _ => False
+  end.
+Proof. exact ImgXattrReader.Example.exr_descs. Qed.
+
+(* ... one reader object, indices in an order in which every out-of-line read leaves and restores a position; a pair bound
+   of 1 gives OutOfFuel on the two-pair set, index 4 is refused ... *)
+Example ex_real_session :
+  match ImgXattrReader.Example.exr_run with
+  | PackAll.PDone r =>
+      let k_a := ImgE2E.Example.k_a in let k_t := ImgE2E.Example.k_t in let k_x := ImgXattrReader.Example.k_x in
+      let V := ImgXattrReader.Example.ex_V in
+      let img := FinishModel.image_bytes (PackAll.r_w r) in
+      let s := ReadImage.sup_of (FinishModel.w_super (PackAll.r_w r)) in
+      Session.xattr_session (ReadImage.uc_of (img_uncompress 3)) img 2 146 s [3; 1; 0; NOIDX; 1; 3] =
+        RBase.Ok [ [(k_a, [49; 50]); (k_t, V)]; [(k_x, V)]; [(k_a, [49]); (k_t, V)]; []; [(k_x, V)]; [(k_a, [49; 50]); (k_t, V)] ] /\
+      Session.xattr_session (ReadImage.uc_of (img_uncompress 3)) img 1 146 s [1; 3] = RBase.OutOfFuel /\
+      Session.xattr_session (ReadImage.uc_of (img_uncompress 3)) img 2 146 s [4] = RBase.Err RBase.E_OOB
+  | _ => False
+  end.
+Proof. exact ImgXattrReader.Example.exr_session. Qed.
+
+(* ... and read_all_real on the bytes of the image returns the inputs, the same list as read_all *)
+Example ex_real_read_back :
+  match ImgXattrReader.Example.exr_run with
+  | PackAll.PDone r =>
+      let n_d := ImgE2E.Example.n_d in let n_a := ImgE2E.Example.n_a in let n_c := ImgE2E.Example.n_c in
+      let n_l := ImgE2E.Example.n_l in let n_s := ImgE2E.Example.n_s in
+      let k_a := ImgE2E.Example.k_a in let k_t := ImgE2E.Example.k_t in let k_x := ImgXattrReader.Example.k_x in
+      let V := ImgXattrReader.Example.ex_V in let ex_A := ImgE2E.Example.ex_A in
+      match ImgXattrReader.Example.exr_read r (E2EReal.e2e_efuel_real r) with
+      | RBase.Ok out =>
+          map (fun e => (PackAll.re_path e, PackAll.re_ino e, PackAll.re_data e, PackAll.re_xattrs e)) out =
+          [ ([], 5, None, []);
+            ([n_d], 3, None, []);
+            ([n_d; n_a], 1, Some ex_A, [(k_a, [49]); (k_t, V)]);
+            ([n_d; n_c], 2, Some ex_A, [(k_x, V)]);
+            ([n_l], 1, Some ex_A, [(k_a, [49]); (k_t, V)]);
+            ([n_s], 4, None, [(k_a, [49; 50]); (k_t, V)]) ] /\
+          ImgXattrReader.Example.exr_spec r = RBase.Ok out
+      | _ => False
+      end
+  | _ => False
+  end.
+Proof. exact ImgXattrReader.Example.exr_read_back. Qed.
+
+(* several metadata blocks (coq/ImgXattrReader/ExampleBig.v): a section whose key-value stream spans two metadata blocks
+   (9045 bytes; block 0 stored compressed: 8192 bytes in 5214) — set 0 = a 3000 byte value L in line at offset 9 of block 0
+   and a 6000 byte value that crosses into block 1, set 2 in block 1 with L by reference back into block 0 — behind 96
+   bytes; the descriptors the model's get_desc returns ... *)
+From SqfsV Require ImgXattrReader.ExampleBig.
+Example ex_real_section_two_blocks :
+  match ImgXattrReader.ExampleBig.big_section with
+  | Some (xw, idxs, bytes, off) =>
+      let img := ImgXattrReader.ExampleBig.big_img bytes in
+      idxs = [0; 1; 2] /\ SectionRefine.xalloc_okb xw = true /\ N.of_nat (SectionRefine.xw_efuel xw) = 2 /\
+      RBase.lenN bytes = 6126 /\ off = 6102 /\
+      RBase.read_at img 96 2 = RBase.Ok (le16 5214) /\
+      match Xattr.xattr_load img (ImgXattrReader.ExampleBig.big_sup bytes off) with
+      | RBase.Ok x =>
+          map (fun k => match Xattr.xattr_get_desc ImgXattrReader.ExampleBig.big_uc img 64 x k with
+                        | RBase.Ok (_, d) => Some d
+                        | _ => None
+                        end) [0; 1; 2] =
+          [Some (0, 2, 9018); Some (5216 * 65536 + 826, 1, 10); Some (5216 * 65536 + 836, 1, 17)]
+      | _ => False
+      end
+  | None => False
+  end.
+Proof. exact ImgXattrReader.ExampleBig.big_section_shape. Qed.
+
+(* ... and one reader object asked for set 2 (seek into block 1, value fetched from block 0, position restored), set 0 (read
+   across the block border), 1, 2 again, NOIDX, 0 again; one round of the read loop is not enough for the value that crosses
+   the border: OutOfFuel, not a wrong value; index 3 is refused *)
+Example ex_real_session_two_blocks :
+  match ImgXattrReader.ExampleBig.big_section with
+  | Some (xw, idxs, bytes, off) =>
+      let img := ImgXattrReader.ExampleBig.big_img bytes in
+      let s := ImgXattrReader.ExampleBig.big_sup bytes off in
+      let uc := ImgXattrReader.ExampleBig.big_uc in
+      let k_a := ImgXattrReader.ExampleBig.kb_a in let k_b := ImgXattrReader.ExampleBig.kb_b in
+      let k_c := ImgXattrReader.ExampleBig.kb_c in
+      let L := ImgXattrReader.ExampleBig.big_L in let F := ImgXattrReader.ExampleBig.big_F in
+      Session.xattr_session uc img 2 (length bytes) s [2; 0; 1; 2; NOIDX; 0] =
+        RBase.Ok [ [(k_c, L)]; [(k_a, L); (k_b, F)]; [(k_b, [1])]; [(k_c, L)]; []; [(k_a, L); (k_b, F)] ] /\
+      Session.xattr_session uc img 2 1 s [0] = RBase.OutOfFuel /\
+      Session.xattr_session uc img 2 (length bytes) s [3] = RBase.Err RBase.E_OOB
+  | None => False
+  end.
+Proof. exact ImgXattrReader.ExampleBig.big_session. Qed.
